@@ -95,6 +95,8 @@ package kvql
 //@   requires wfBin(e)
 //@   assigns ctx.Hit, mapof(ctx.FieldCaches), mapof(ctx.FieldChunkKeyCaches), mapof(ctx.FieldChunkCaches)
 //@   ensures[C03] same: err == nil ==> len(ret) == len(chunk) && (forall i Int :: 0 <= i && i < len(chunk) ==> lokI(e, chunk, i) && rokI(e, chunk, i) && eqKinds(lvI(e, chunk, i), rvI(e, chunk, i)) && ret[i] == ABool(ite(not, !eqVal(lvI(e, chunk, i), rvI(e, chunk, i)), eqVal(lvI(e, chunk, i), rvI(e, chunk, i)))))
+//@   use forall i Int :: doc_bin(e, chunk[i])
+//@   ensures[C03] twin: err == nil && ((e.Op == Eq && !not) || (e.Op == NotEq && not)) ==> rowsOf(e, chunk, ret)
 //@   ensures own: err == nil ==> isnil(ret) || fresh(ret)
 //@   loop 0
 //@     invariant 0 <= i && i <= len(chunk) && len(rleft) == len(chunk) && len(rright) == len(chunk) && fresh(rleft) && (isnil(rright) || fresh(rright)) && ptr(rleft) != ptr(rright) && bothOk(e, chunk)
@@ -109,6 +111,8 @@ package kvql
 //@   requires wfBin(e)
 //@   assigns ctx.Hit, mapof(ctx.FieldCaches), mapof(ctx.FieldChunkKeyCaches), mapof(ctx.FieldChunkCaches)
 //@   ensures[C03] same: err == nil ==> len(ret) == len(chunk) && (forall i Int :: 0 <= i && i < len(chunk) ==> lokI(e, chunk, i) && rokI(e, chunk, i) && isText(lvI(e, chunk, i)) && isText(rvI(e, chunk, i)) && ret[i] == ABool(pre(textOf(rvI(e, chunk, i)), textOf(lvI(e, chunk, i)))))
+//@   use forall i Int :: doc_bin(e, chunk[i])
+//@   ensures[C03] twin: err == nil && (e.Op == PrefixMatch) ==> rowsOf(e, chunk, ret)
 //@   ensures own: err == nil ==> isnil(ret) || fresh(ret)
 //@   loop 0
 //@     invariant 0 <= i && i <= len(chunk) && len(rleft) == len(chunk) && len(rright) == len(chunk) && (isnil(rleft) || fresh(rleft)) && (isnil(rright) || fresh(rright)) && (len(chunk) > 0 ==> ptr(rleft) != ptr(rright)) && bothOk(e, chunk)
@@ -123,6 +127,8 @@ package kvql
 //@   requires wfBin(e)
 //@   assigns ctx.Hit, mapof(ctx.FieldCaches), mapof(ctx.FieldChunkKeyCaches), mapof(ctx.FieldChunkCaches)
 //@   ensures[C03] same: err == nil ==> len(ret) == len(chunk) && (forall i Int :: 0 <= i && i < len(chunk) ==> lokI(e, chunk, i) && rokI(e, chunk, i) && isbool(lvI(e, chunk, i)) && isbool(rvI(e, chunk, i)) && ret[i] == ABool(ite(and, bval(lvI(e, chunk, i)) && bval(rvI(e, chunk, i)), bval(lvI(e, chunk, i)) || bval(rvI(e, chunk, i)))))
+//@   use forall i Int :: doc_bin(e, chunk[i])
+//@   ensures[C03] twin: err == nil && (((e.Op == And || e.Op == KWAnd) && and) || ((e.Op == Or || e.Op == KWOr) && !and)) ==> rowsOf(e, chunk, ret)
 //@   ensures own: err == nil ==> isnil(ret) || fresh(ret)
 //@   loop 0
 //@     invariant 0 <= i && i <= len(chunk) && len(rleft) == len(chunk) && len(rright) == len(chunk) && (isnil(rleft) || fresh(rleft)) && (isnil(rright) || fresh(rright)) && (len(chunk) > 0 ==> ptr(rleft) != ptr(rright)) && bothOk(e, chunk)
@@ -135,6 +141,8 @@ package kvql
 //@   requires wfBin(e) && mathOp(op)
 //@   assigns ctx.Hit, mapof(ctx.FieldCaches), mapof(ctx.FieldChunkKeyCaches), mapof(ctx.FieldChunkCaches)
 //@   ensures[C03] same: err == nil ==> len(ret) == len(chunk) && (forall i Int :: 0 <= i && i < len(chunk) ==> lokI(e, chunk, i) && rokI(e, chunk, i) && isNum(lvI(e, chunk, i)) && isNum(rvI(e, chunk, i)) && !divByZero(op, rvI(e, chunk, i)) && ret[i] == ite(isInt(lvI(e, chunk, i)) && isInt(rvI(e, chunk, i)), AInt(intOp(op, intof(lvI(e, chunk, i)), intof(rvI(e, chunk, i)))), AFlt(fltOp(op, numOf(lvI(e, chunk, i)), numOf(rvI(e, chunk, i))))))
+//@   use forall i Int :: doc_bin(e, chunk[i])
+//@   ensures[C03] twin: err == nil && ((e.Op == Sub || e.Op == Mul || e.Op == Div || (e.Op == Add && rtype(e.Left) != TSTR)) && op == opChar(e.Op)) ==> rowsOf(e, chunk, ret)
 //@   ensures own: err == nil ==> isnil(ret) || fresh(ret)
 //@   loop 0
 //@     invariant 0 <= i && i <= len(chunk) && len(rleft) == len(chunk) && len(rright) == len(chunk) && (isnil(rleft) || fresh(rleft)) && (isnil(rright) || fresh(rright)) && (len(chunk) > 0 ==> ptr(rleft) != ptr(rright)) && bothOk(e, chunk)
@@ -147,6 +155,8 @@ package kvql
 //@   requires wfBin(e) && relOp(val(op))
 //@   assigns ctx.Hit, mapof(ctx.FieldCaches), mapof(ctx.FieldChunkKeyCaches), mapof(ctx.FieldChunkCaches)
 //@   ensures[C03] same: err == nil ==> len(ret) == len(chunk) && (forall i Int :: 0 <= i && i < len(chunk) ==> lokI(e, chunk, i) && rokI(e, chunk, i) && isNum(lvI(e, chunk, i)) && isNum(rvI(e, chunk, i)) && ret[i] == ABool(ite(isInt(lvI(e, chunk, i)) && isInt(rvI(e, chunk, i)), intHolds(val(op), intof(lvI(e, chunk, i)), intof(rvI(e, chunk, i))), fltHolds(val(op), numOf(lvI(e, chunk, i)), numOf(rvI(e, chunk, i))))))
+//@   use forall i Int :: doc_bin(e, chunk[i])
+//@   ensures[C03] twin: err == nil && (isOrderOp(e.Op) && rtype(e.Left) != TSTR && val(op) == opSym(e.Op)) ==> rowsOf(e, chunk, ret)
 //@   ensures own: err == nil ==> isnil(ret) || fresh(ret)
 //@   loop 0
 //@     invariant 0 <= i && i <= len(chunk) && len(rleft) == len(chunk) && len(rright) == len(chunk) && (isnil(rleft) || fresh(rleft)) && (isnil(rright) || fresh(rright)) && (len(chunk) > 0 ==> ptr(rleft) != ptr(rright)) && bothOk(e, chunk)
@@ -159,6 +169,8 @@ package kvql
 //@   requires wfBin(e) && relOp(val(op))
 //@   assigns ctx.Hit, mapof(ctx.FieldCaches), mapof(ctx.FieldChunkKeyCaches), mapof(ctx.FieldChunkCaches)
 //@   ensures[C03] same: err == nil ==> len(ret) == len(chunk) && (forall i Int :: 0 <= i && i < len(chunk) ==> lokI(e, chunk, i) && rokI(e, chunk, i) && isText(lvI(e, chunk, i)) && isText(rvI(e, chunk, i)) && ret[i] == ABool(cmpHolds(val(op), cmp(textOf(lvI(e, chunk, i)), textOf(rvI(e, chunk, i))))))
+//@   use forall i Int :: doc_bin(e, chunk[i])
+//@   ensures[C03] twin: err == nil && (isOrderOp(e.Op) && rtype(e.Left) == TSTR && val(op) == opSym(e.Op)) ==> rowsOf(e, chunk, ret)
 //@   ensures own: err == nil ==> isnil(ret) || fresh(ret)
 //@   loop 0
 //@     invariant 0 <= i && i <= len(chunk) && len(rleft) == len(chunk) && len(rright) == len(chunk) && (isnil(rleft) || fresh(rleft)) && (isnil(rright) || fresh(rright)) && (len(chunk) > 0 ==> ptr(rleft) != ptr(rright)) && bothOk(e, chunk)
@@ -172,6 +184,8 @@ package kvql
 //@   requires wfBin(e)
 //@   assigns ctx.Hit, mapof(ctx.FieldCaches), mapof(ctx.FieldChunkKeyCaches), mapof(ctx.FieldChunkCaches)
 //@   ensures[C03] same: err == nil ==> len(ret) == len(chunk) && (forall i Int :: 0 <= i && i < len(chunk) ==> lokI(e, chunk, i) && rokI(e, chunk, i) && isText(lvI(e, chunk, i)) && isText(rvI(e, chunk, i)) && reOk(textOf(rvI(e, chunk, i))) && ret[i] == ABool(reMatch(textOf(rvI(e, chunk, i)), textOf(lvI(e, chunk, i)))))
+//@   use forall i Int :: doc_bin(e, chunk[i])
+//@   ensures[C03] twin: err == nil && (e.Op == RegExpMatch) ==> rowsOf(e, chunk, ret)
 //@   ensures own: err == nil ==> isnil(ret) || fresh(ret)
 //@   loop 0
 //@     invariant 0 <= i && i <= len(chunk) && len(rleft) == len(chunk) && len(rright) == len(chunk) && (isnil(rleft) || fresh(rleft)) && (isnil(rright) || fresh(rright)) && (len(chunk) > 0 ==> ptr(rleft) != ptr(rright)) && bothOk(e, chunk) && fresh(regexpCache)
@@ -227,6 +241,8 @@ package kvql
 //@   ensures[C03] types: err == nil ==> ite(number, rtype(blo(e)) == TNUMBER && rtype(bhi(e)) == TNUMBER, rtype(blo(e)) == TSTR && rtype(bhi(e)) == TSTR)
 //@   ensures[C03] texts: err == nil && !number ==> (forall i Int :: 0 <= i && i < len(chunk) ==> isText(lvI(e, chunk, i)) && isText(evalv(blo(e), ck(chunk, i), cv(chunk, i))) && isText(evalv(bhi(e), ck(chunk, i), cv(chunk, i))) && cmp(textOf(evalv(blo(e), ck(chunk, i), cv(chunk, i))), textOf(evalv(bhi(e), ck(chunk, i), cv(chunk, i)))) <= 0 && ret[i] == ABool(cmp(textOf(evalv(blo(e), ck(chunk, i), cv(chunk, i))), textOf(lvI(e, chunk, i))) <= 0 && cmp(textOf(lvI(e, chunk, i)), textOf(evalv(bhi(e), ck(chunk, i), cv(chunk, i)))) <= 0))
 //@   ensures[C03] numbers: err == nil && number ==> (forall i Int :: 0 <= i && i < len(chunk) ==> isNum(lvI(e, chunk, i)) && isNum(evalv(blo(e), ck(chunk, i), cv(chunk, i))) && isNum(evalv(bhi(e), ck(chunk, i), cv(chunk, i))) && (isInt(lvI(e, chunk, i)) && isInt(evalv(blo(e), ck(chunk, i), cv(chunk, i))) && isInt(evalv(bhi(e), ck(chunk, i), cv(chunk, i))) ==> intof(evalv(blo(e), ck(chunk, i), cv(chunk, i))) <= intof(evalv(bhi(e), ck(chunk, i), cv(chunk, i))) && ret[i] == ABool(intof(evalv(blo(e), ck(chunk, i), cv(chunk, i))) <= intof(lvI(e, chunk, i)) && intof(lvI(e, chunk, i)) <= intof(evalv(bhi(e), ck(chunk, i), cv(chunk, i))))))
+//@   use forall i Int :: doc_bin(e, chunk[i])
+//@   ensures[C03] twin: err == nil && e.Op == Between && rtype(e.Left) == TSTR && !number ==> rowsOf(e, chunk, ret)
 //@   ensures own: err == nil ==> isnil(ret) || fresh(ret)
 //@   loop 0
 //@     invariant 0 <= i && i <= len(chunk) && len(rleft) == len(chunk) && len(lbvals) == len(chunk) && len(ubvals) == len(chunk) && (isnil(rleft) || fresh(rleft)) && (isnil(lbvals) || fresh(lbvals)) && (isnil(ubvals) || fresh(ubvals)) && (len(chunk) > 0 ==> ptr(rleft) != ptr(lbvals) && ptr(rleft) != ptr(ubvals)) && bshape(e) && lexpr == blo(e) && uexpr == bhi(e)
@@ -254,7 +270,6 @@ package kvql
 //@   props C03
 //@   ifaceassumed same
 //@   requires wfBetween(e)
-//@   use forall i Int :: doc_bin(e, chunk[i])
 //@   ensures[C03] twin: err == nil && provedOp(e) ==> rowsOf(e, chunk, ret)
 //
 // Function calls: both forms look the function up and must accept exactly the same argument
